@@ -191,6 +191,18 @@ Theorem cid_budget_at_least : forall rm cl news rets, 0 <= cl <= C13Writers.CONN
 Proof. exact cid_budget_lower. Qed.
 Print Assumptions cid_budget_at_least.
 
+(* ... exactly, when every owed sequence number is below 64 (one-byte varints; NEW_CONNECTION_ID frames then take
+   20 + len(cid) bytes, RETIRE_CONNECTION_ID frames 2): n1 = min(#new, (room - 54) / (20 + len(cid)) + 1) frames of the first
+   loop and, if that is all of them, min(#retire, (room' - 9) / 2 + 1) of the second ... *)
+Theorem cid_budget_closed_form : forall rm cl news rets, 0 <= cl <= C13Writers.CONNECTION_ID_MAX_SIZE ->
+  Forall (fun q => 0 <= q < 64) news -> Forall (fun q => 0 <= q < 64) rets ->
+  let n1 := Z.min (Zlen news) (if rm <? 54 then 0 else (rm - 54) / (20 + cl) + 1) in
+  let r1 := rm - (20 + cl) * n1 in
+  cid_budget rm cl news rets =
+    if n1 <? Zlen news then n1 else n1 + Z.min (Zlen rets) (if r1 <? 9 then 0 else (r1 - 9) / 2 + 1).
+Proof. exact cid_budget_small_seqs. Qed.
+Print Assumptions cid_budget_closed_form.
+
 (* ... and the first frame owed decides between progress and none: room below its declared capacity -> nothing is written
    and nothing changes; room for it -> at least one frame is written and what is owed shrinks. *)
 Theorem built_send_progress : forall (bs : Builder.st) cl (s : st), owed s <> 0 ->
